@@ -19,7 +19,10 @@ RULE = ('(a) inherit chains of length 0-3: view prefixes; (b) every non-empty su
         'sets with types, sources, shapes and dump counts. Non-trivial = key defined in >= 2 namespaces / >= 1 candidate '
         'flag stream; distinct by full configuration.')
 ASSUMPTIONS = ['katsdptelstate view semantics (ordered prefixes, first match) and sorted key order are modelled, not verified',
-               'cyclic inherit chains make the real loop diverge and are excluded']
+               'cyclic inherit chains make the real loop diverge and are excluded',
+               'all arrays of one stream have the same number of dumps; an archived flag stream holds only a flags array',
+               'a source with neither data nor synthesised timestamps (chunk_store=None and timestamps given) derives nothing '
+               'from the streams: only the given timestamps are compared there']
 
 
 def codes(s):
@@ -136,12 +139,21 @@ def make_rdb(tmp):
     return path
 
 
-def check_ids(ctx, path):
+def check_ids(ctx, path, only=None):
     opts_cb = [None, '', 'cbU']
     opts_sn = [None, '', 'alt_l0', 'bad_l0', 'untyped', 'missing']
-    combos = list(itertools.product(opts_cb, [None, 'cbK'], opts_sn, [None, 'alt_l0', 'sdp_l0']))
-    if ctx.tier != 'thorough':
-        combos = ctx.rng.sample(combos, 40)
+    # (an empty value in the URL query is dropped by parse_qsl; an empty KEYWORD reaches the `if not x` default)
+    combos = list(itertools.product(opts_cb, [None, '', 'cbK'], opts_sn, [None, '', 'alt_l0', 'sdp_l0']))
+    if only is not None:
+        q, k = only
+        combos = [(q.get('capture_block_id'), k.get('capture_block_id'), q.get('stream_name'), k.get('stream_name'))]
+    elif ctx.tier != 'thorough':
+        combos = ctx.rng.sample(combos, 60)
+    st_vals = None
+    if ctx.model_ok:
+        ts0 = katsdptelstate.TelescopeState()
+        ts0.load_from_file(path)
+        st_vals = abstract_telstate(ts0)
     for (ucb, kcb, usn, ksn) in combos:
         query = {}
         if ucb is not None:
@@ -179,6 +191,12 @@ def check_ids(ctx, path):
             mexp = (mcb, msn) if mo[2] == 1 else 'ValueError'
             if mexp != exp:
                 ctx.disagree('what=id_model_vs_spec', case, None, mexp, 'model id resolution differs from spec', spec=exp)
+            # the whole path in the model: ids from keyword / URL query / the keys recorded in the file, the view,
+            # the stream type read through the view (metadata only, timestamps synthesised)
+            mo = ctx.model([[18, [8, [0, [], []], st_vals[0], st_vals[1], opt(kcb), opt(ucb), opt(ksn), opt(usn)]]])[0][0]
+            mgot = (''.join(map(chr, mo[1])), ''.join(map(chr, mo[2]))) if mo[0] == 0 else ERRS.get(mo[1], 'error')
+            if got != mgot and not (esn == 'missing' and got in ('ValueError', 'KeyError')):
+                ctx.disagree('what=id_tie', case, got, mgot, 'from_url differs from the model of the whole opening path', kind='tie')
         if got != exp and not (esn == 'missing' and got in ('ValueError', 'KeyError')):
             ctx.disagree('what=id_precedence;type_ok=%s' % ok_type, case, got, None,
                          'capture block / stream resolution or stream type check differs from file < URL < keyword',
@@ -186,6 +204,8 @@ def check_ids(ctx, path):
         ctx.traces_validated += 1
         ctx.note_case(('ids', ucb, kcb, usn, ksn), nontrivial=bool(query) or bool(kw), sample=dict(kind='ids', **case))
         ctx.count('ids')
+    if only is not None:
+        return
     # unreadable sources are reported as not found
     bad = os.path.join(os.path.dirname(path), 'corrupt.rdb')
     with open(bad, 'wb') as f:
@@ -207,92 +227,315 @@ def check_ids(ctx, path):
         ctx.count('unreadable')
 
 
-# --------------------------------------------------------------------------- flag streams
+# --------------------------------------------------------------------------- flag streams x every way of opening
 
-def check_flag_streams(ctx):
-    rng = ctx.rng
-    T, F = rng.randint(2, 5), 4
-    B = 12
-    n = rng.randint(0, 3)
+T0 = 1600000123.0      # sync_time + first_timestamp of fixtures.v4 (integers: exact in float64 whatever the formula)
+INT_TIME = 2.0
+HOWS = ('ctor', 'from_url', 'open_data_source', 'katdal.open')
+ERRS = {1: 'ValueError', 3: 'ValueError', 2: 'KeyError', 4: 'UnboundLocalError', 9: 'outside-model'}
+
+
+def abstract_telstate(ts):
+    """The telstate content as the model sees it: (store entries, value table).  Only the shapes the code looks at
+    are kept: strings, lists of strings, chunk_info (dumps and channel/baseline shape of its flags array)."""
+    st, vals = [], []
+    for k in sorted(ts.keys()):
+        mut = ts.key_type(k) == katsdptelstate.KeyType.MUTABLE
+        v = None if mut else ts[k]
+        if isinstance(v, bytes):
+            v = v.decode()
+        if isinstance(v, str):
+            a = [0, codes(v)]
+        elif isinstance(v, (list, tuple)) and all(isinstance(e, str) for e in v):
+            a = [1, [codes(e) for e in v]]
+        elif isinstance(v, dict) and any(isinstance(i, dict) and 'shape' in i for i in v.values()):
+            info = v.get('flags') or v.get('correlator_data') or next(iter(v.values()))
+            a = [2, int(info['shape'][0]), [int(n) for n in info['shape'][1:]]]
+        else:
+            a = [3]
+        st.append([codes(k), int(mut), len(vals)])
+        vals.append(a)
+    return st, vals
+
+
+def build_flag_fixture(case, seed):
+    """case: T, F, candidates [name, T, F, type, src] -> fixtures.v4 object + RDB file next to its chunk store."""
+    T, F, B = case['T'], case['F'], 12
     cands = []
-    for i in range(n):
-        Tf = max(1, T + rng.choice([0, 0, 1, -1, 2]))
-        Ff = F if rng.random() < 0.8 else F + 2
-        ty = rng.choice(['sdp.flags', 'sdp.flags', 'sdp.flags', 'sdp.vis', None])
-        src = rng.choice([['sdp_l0'], ['sdp_l0'], ['other'], ['other', 'sdp_l0'], []])
-        fl = np.full((Tf, Ff, B), 0x10 + i + 1, np.uint8)
-        cands.append(dict(name='fl%d' % i, flags=fl, type=ty, src=src, chunks=(1, Ff, B)))
+    for i, c in enumerate(case['candidates']):
+        fl = np.full((c['T'], c['F'], c.get('B', B)), 0x10 + i + 1, np.uint8)
+        cands.append(dict(name=c['name'], flags=fl, type=c['type'], src=c['src'], chunks=(1, c['F'], c.get('B', B))))
     own = np.full((T, F, B), 0x10, np.uint8)
-    upgrade = rng.random() < 0.85
-    case = dict(T=T, F=F, upgrade_flags=upgrade,
-                candidates=[dict(name=c['name'], T=c['flags'].shape[0], F=c['flags'].shape[1], type=c['type'], src=c['src'])
-                            for c in cands])
-    # spec
-    matching = [c for c in cands if c['type'] == 'sdp.flags' and 'sdp_l0' in c['src']] if upgrade else []
-    if any(c['flags'].shape[1:] != (F, B) for c in matching):
-        exp = 'ValueError'
-    else:
-        win = matching[-1] if matching else None
-        wT = win['flags'].shape[0] if win else T
-        exp = dict(flag_value=(0x10 + int(win['name'][2:]) + 1) if win else 0x10, dumps=max(T, wT), flag_dumps=wT)
-    x = v4.build_v4(T=T, F=F, arrays={'flags': own}, flag_streams=cands, seed=ctx.seed,
-                    chunks={'correlator_data': (1, F, B)}, construct=False)
+
+    def hook(ts, cbid, stream):
+        ts['capture_block_id'] = cbid
+        ts['stream_name'] = stream
+        for c in case['candidates']:
+            cs = ts.view(ts.join(cbid, c['name']), exclusive=True)
+            if c.get('cb_type') is not None:
+                cs['stream_type'] = c['cb_type']
+            if c.get('cb_src') is not None:
+                cs['src_streams'] = list(c['cb_src'])
+            if c.get('inherit'):
+                ts.view(c['name'], exclusive=True)['inherit'] = c['inherit']
+        if case.get('archived_decoy') is not None:
+            # the real list lives in the capture block namespace, a less specific decoy in the global one
+            ts.view(cbid, exclusive=True)['sdp_archived_streams'] = [stream] + [c['name'] for c in case['candidates']]
+    decoy = case.get('archived_decoy')
+    x = v4.build_v4(T=T, F=F, arrays={'flags': own}, flag_streams=cands, seed=seed,
+                    chunks={'correlator_data': (1, F, B)}, construct=False, telstate_hook=hook,
+                    archived_override=None if decoy is None else ['sdp_l0'] + list(decoy))
+    os.makedirs(os.path.join(x.tmp, x.cbid))
+    x.rdb = os.path.join(x.tmp, x.cbid, '%s_%s.rdb' % (x.cbid, x.stream))
+    with RDBWriter(x.rdb) as w:
+        w.save(x.telstate)
+    x.B = B
+    return x
+
+
+def effective(case, c, key):
+    """Attribute of an archived stream per the property: capture block + stream, capture block + inherited streams,
+    (capture block), stream, inherited streams.  key: 'type' | 'src'."""
+    by_name = {d['name']: d for d in case['candidates']}
+    chain = [c]
+    while chain[-1].get('inherit') in by_name:
+        chain.append(by_name[chain[-1]['inherit']])
+    for d in chain:
+        if d.get('cb_' + key) is not None:
+            return d['cb_' + key]
+    for d in chain:
+        if d.get(key) is not None:
+            return d[key]
+    return None
+
+
+def spec_of_mode(case, mode):
+    """What the property says: dumps / flags of the data set for this way of opening."""
+    T, F, B = case['T'], case['F'], 12
+    has_store = mode['store'] != 'none'
+    upgrade = True if mode['upgrade'] is None else mode['upgrade']
+    n_ts = mode['n_ts']
+    if not has_store and n_ts is not None:
+        return dict(dumps=n_ts, ts_ok=True)          # nothing is derived from the streams
+    cands = case['candidates']
+    matching = [(i, c) for i, c in enumerate(cands)
+                if effective(case, c, 'type') == 'sdp.flags' and 'sdp_l0' in (effective(case, c, 'src') or [])] if upgrade else []
+    if any(c['F'] != F or c.get('B', B) != B for _, c in matching):
+        return 'ValueError'
+    wi, win = matching[-1] if matching else (None, None)
+    wT = win['T'] if win else T
+    n = max(T, wT)
+    exp = dict(dumps=n if n_ts is None else n_ts, ts_ok=True)
+    if has_store:
+        exp.update(data_dumps=n, flag_value=(0x10 + wi + 1) if win else 0x10, clean_dumps=min(T, wT), lost_ok=True)
+    return exp
+
+
+def open_mode(x, case, mode):
+    """Open the data set the way `mode` says; returns the observables or an error name."""
+    import katdal
+    from katdal.datasources import open_data_source
+    from katdal.visdatav4 import VisibilityDataV4
+    T = case['T']
+    kw = {}
+    if mode['store'] == 'given':
+        kw['chunk_store'] = x.store
+    elif mode['store'] == 'none':
+        kw['chunk_store'] = None
+    if mode['upgrade'] is not None:
+        kw['upgrade_flags'] = mode['upgrade']
+    given = None
+    if mode['n_ts'] is not None:
+        given = 1600001000.0 + 4.0 * np.arange(mode['n_ts'])
+        kw['timestamps'] = given.copy()
+    query = dict(mode.get('query') or {})
+    url = x.rdb + ('?' + urllib.parse.urlencode(query) if query else '')
+    how = mode['how']
+    d = None
     try:
-        try:
-            # an incompatible shape must be refused when the data source is constructed, not when data are read
-            src = TelstateDataSource(x.view, x.cbid, x.stream, chunk_store=x.store, upgrade_flags=upgrade)
-        except ValueError:
-            src = None
-            got = 'ValueError'
-        except Exception as e:   # noqa
-            src = None
-            got = 'construct:' + type(e).__name__
-        if src is not None:
-            try:
-                from katdal.visdatav4 import VisibilityDataV4
-                d = VisibilityDataV4(src)
-                raw = np.asarray(d.raw_flags[:])
-                vis = np.asarray(d.vis[:])
-                got = dict(dumps=int(d.shape[0]))
-                nf = exp['flag_dumps'] if isinstance(exp, dict) else 0
-                common = min(nf, T)
-                vals = np.unique(raw[:common] & 0x77) if common else np.array([exp['flag_value'] if isinstance(exp, dict) else 0])
-                got['flag_value'] = int(vals[0]) if len(vals) == 1 else vals.tolist()
-                got['flag_dumps'] = nf
-                # absent dumps are lost data: data_lost set, vis zero beyond T, data_lost beyond the flag dumps
-                lost_ok = True
-                if isinstance(exp, dict):
-                    if exp['dumps'] > T:
-                        lost_ok &= bool(np.all(raw[T:] & 8)) and bool(np.all(vis[T:] == 0))
-                    if exp['dumps'] > nf:
-                        lost_ok &= bool(np.all(raw[nf:] & 8))
-                    lost_ok &= bool(np.all((raw[:common] & 8) == 0))
-                got['lost_ok'] = lost_ok
-            except Exception as e:   # noqa
-                got = 'late:' + type(e).__name__
+        if how == 'ctor':
+            kw.setdefault('chunk_store', None)
+            src = TelstateDataSource(x.view, x.cbid, x.stream, **kw)
+        elif how == 'from_url':
+            src = TelstateDataSource.from_url(url, **kw)
+        elif how == 'open_data_source':
+            src = open_data_source(url, **kw)
+        else:
+            d = katdal.open(url, **kw)
+            src = d.source
+    except ValueError:
+        return 'ValueError'
+    except Exception as e:   # noqa
+        return 'construct:' + type(e).__name__
+    try:
+        if d is None and mode.get('dataset', True):
+            d = VisibilityDataV4(src)
+        ts = np.asarray(d.timestamps if d is not None else src.timestamps)
+        expected_ts = given if given is not None else T0 + INT_TIME * np.arange(len(ts))
+        got = dict(dumps=int(len(ts)), ts_ok=bool(np.array_equal(ts, expected_ts)))
+        if (src.data is None) != (mode['store'] == 'none'):
+            got['data'] = 'absent' if src.data is None else 'present'
+        if src.data is not None:
+            if d is not None:
+                raw, vis, nd = np.asarray(d.raw_flags[:]), np.asarray(d.vis[:]), int(d.shape[0])
+            else:
+                raw, vis, nd = src.data.flags.compute(), src.data.vis.compute(), int(src.data.shape[0])
+            got['data_dumps'] = nd if raw.shape[0] == nd == vis.shape[0] else [nd, int(raw.shape[0]), int(vis.shape[0])]
+            # a dump absent from either stream is lost data (all its flags carry data_lost, its visibilities are zero);
+            # the dumps present in both are not, and their flags come from ONE stream (constant per stream)
+            lost = (raw & 8).astype(bool).all(axis=(1, 2))
+            clean = ((raw & 8) == 0).all(axis=(1, 2))
+            nclean = int(clean.sum())
+            vals = np.unique(raw[clean] & 0x77)
+            got['flag_value'] = int(vals[0]) if len(vals) == 1 else [int(v) for v in vals]
+            got['clean_dumps'] = nclean
+            got['lost_ok'] = bool(np.all(lost | clean) and np.all(clean[:nclean]) and np.all(vis[T:] == 0))
+        return got
+    except Exception as e:   # noqa
+        return 'late:' + type(e).__name__
+
+
+def check_open(ctx, case, mode, x=None, st_vals=None):
+    own_x = x is None
+    if own_x:
+        x = build_flag_fixture(case, ctx.seed)
+    try:
+        got = open_mode(x, case, mode)
+        if ctx.model_ok and st_vals is None:
+            st_vals = abstract_telstate(x.telstate)
+    finally:
+        if own_x:
+            v4.cleanup(x)
+    exp = spec_of_mode(case, mode)
+    full = dict(case, mode=mode)
+    if ctx.model_ok:
+        def opt(s):
+            return [codes(s)] if s is not None else []
+        st, vals = st_vals
+        q = mode.get('query') or {}
+        kcb, ksn = (x.cbid, x.stream) if mode['how'] == 'ctor' else (None, None)
+        wm = [int(mode['store'] != 'none'), [] if mode['upgrade'] is None else [int(mode['upgrade'])],
+              [] if mode['n_ts'] is None else [mode['n_ts']]]
+        mo = ctx.model([[18, [8, wm, st, vals, opt(kcb), opt(q.get('capture_block_id')), opt(ksn), opt(q.get('stream_name'))]]])[0]
+
+        def decode(r):
+            if r[0] == -1:
+                return ERRS.get(r[1], 'error%d' % r[1])
+            out = dict(dumps=r[3], ts_ok=True)
+            if r[4]:
+                key = ''.join(map(chr, st[r[4][1]][0]))      # the chunk_info key the flags come from
+                nm = key[len(x.cbid) + 1:-len('_chunk_info')]
+                idx = [c['name'] for c in case['candidates']].index(nm) if nm != x.stream else None
+                fd = case['candidates'][idx]['T'] if idx is not None else case['T']
+                out.update(data_dumps=r[4][0], flag_value=0x10 if idx is None else 0x10 + idx + 1,
+                           clean_dumps=min(case['T'], fd), lost_ok=True)
+            return out
+        m_model, m_spec = decode(mo[0]), decode(mo[1])
+        if m_model != m_spec:
+            ctx.disagree('what=open_model_vs_spec', full, None, m_model, 'model of opening differs from Coq spec', spec=m_spec)
+        if m_spec != exp:
+            ctx.disagree('what=open_spec_selfcheck', full, None, m_spec, 'Coq spec of opening differs from harness expectation', spec=exp)
+        if got != m_model:
+            ctx.disagree('what=open_tie;how=%s' % mode['how'], full, got, m_model, 'opened data set differs from model', kind='tie')
+    if got != exp:
+        if isinstance(got, dict) and isinstance(exp, dict):
+            symptom = next((k for k in ('dumps', 'ts_ok', 'data', 'data_dumps', 'flag_value', 'clean_dumps', 'lost_ok')
+                            if got.get(k) != exp.get(k)), 'other')
+        else:
+            symptom = ('not_refused' if exp == 'ValueError' else str(got))
+        ctx.disagree('what=open_span;how=%s;data=%s;timestamps=%s;symptom=%s'
+                     % (mode['how'], 'no' if mode['store'] == 'none' else 'yes',
+                        'synthesised' if mode['n_ts'] is None else 'given', symptom), full, got, None,
+                     'flag stream upgrade / span of the data set differs from the documented rule for this way of opening',
+                     spec=exp)
+    ctx.traces_validated += 1
+    ctx.note_case(('open', repr(full)), nontrivial=len(case['candidates']) >= 1, sample=dict(kind='open', **full))
+    ctx.count('open:%s:%s:%s' % (mode['how'], 'data' if mode['store'] != 'none' else 'meta',
+                                 'ts_given' if mode['n_ts'] is not None else 'ts_synth'))
+    return st_vals
+
+
+def gen_flag_case(rng):
+    T, F = rng.randint(2, 5), 4
+    cands = []
+    for i in range(rng.randint(0, 3)):
+        cands.append(dict(name='fl%d' % i, T=max(1, T + rng.choice([0, 0, 1, -1, 2, 3])), F=F if rng.random() < 0.85 else F + 2,
+                          type=rng.choice(['sdp.flags', 'sdp.flags', 'sdp.flags', 'sdp.vis', None]),
+                          src=rng.choice([['sdp_l0'], ['sdp_l0'], ['other'], ['other', 'sdp_l0'], []])))
+    case = dict(T=T, F=F, candidates=cands)
+    for c in cands:
+        if c['F'] == F and rng.random() < 0.08:
+            c['B'] = 8                       # same channels, different number of baselines
+    # placements: attributes of a candidate in its capture-block namespace (more specific than its stream namespace,
+    # which then holds a different value), inherited from another archived stream, list of archived streams
+    # defined in the capture block namespace with a less specific decoy in the global one
+    for i, c in enumerate(cands):
+        r = rng.random()
+        if r < 0.2:
+            c['cb_type'] = rng.choice(['sdp.flags', 'sdp.vis'])
+        elif r < 0.3:
+            c['cb_src'] = rng.choice([['sdp_l0'], ['other']])
+        elif r < 0.45 and i > 0:
+            c['inherit'] = cands[rng.randrange(i)]['name']
+            if rng.random() < 0.7:
+                c['type'] = None
+    if cands and rng.random() < 0.25:
+        case['archived_decoy'] = rng.choice([[], [cands[0]['name']], [c['name'] for c in reversed(cands)]])
+    return case
+
+
+def all_modes(case, rng, cbid='1234567890'):
+    """Every way of opening: how x (chunk store given / found automatically / none) x timestamps synthesised or
+    given; the upgrade_flags keyword (absent, True, False) and the URL query are drawn per mode."""
+    out = []
+    for how in HOWS:
+        for store in (('given', 'none') if how == 'ctor' else ('auto', 'given', 'none')):
+            for given in (False, True):
+                up = rng.choice([None, None, True, False])
+                mode = dict(how=how, store=store, upgrade=up, n_ts=None)
+                if given:
+                    e = spec_of_mode(case, dict(mode, store='given'))
+                    mode['n_ts'] = e['dumps'] if isinstance(e, dict) else case['T']
+                if how != 'ctor':
+                    mode['query'] = rng.choice([{}, {}, {'stream_name': 'sdp_l0'},
+                                                {'capture_block_id': cbid, 'stream_name': 'sdp_l0'}])
+                # the dataset layer on top of the source is exercised by katdal.open and by half of the others
+                mode['dataset'] = how == 'katdal.open' or rng.random() < 0.5
+                out.append(mode)
+    return out
+
+
+def check_flag_streams(ctx, case=None, n_modes=None):
+    rng = ctx.rng
+    case = case or gen_flag_case(rng)
+    modes = all_modes(case, rng)
+    if n_modes is not None:
+        # always keep one metadata-only and one with-data opening with synthesised timestamps
+        synth = [m for m in modes if m['n_ts'] is None]
+        first = [rng.choice([m for m in synth if m['store'] == 'none']), rng.choice([m for m in synth if m['store'] != 'none'])]
+        for m in first:
+            if m['upgrade'] is False:
+                m['upgrade'] = None
+        rest = [m for m in modes if m not in first]
+        modes = first + rng.sample(rest, max(0, n_modes - 2))
+    x = build_flag_fixture(case, ctx.seed)
+    try:
+        st_vals = None
+        for mode in modes:
+            st_vals = check_open(ctx, case, mode, x=x, st_vals=st_vals)
     finally:
         v4.cleanup(x)
-    if isinstance(exp, dict):
-        exp = dict(exp, lost_ok=True)
-    if ctx.model_ok:
-        ar = [[i + 1, [codes(c['type'])] if c['type'] else [], [codes(s) for s in c['src']], c['flags'].shape[0],
-               [c['flags'].shape[1], B]] for i, c in enumerate(cands)] if upgrade else []
-        mo = ctx.model([[18, [6, codes('sdp_l0'), [0, T, [F, B]], ar]]])[0]
-        if mo[0] != mo[1]:
-            ctx.disagree('what=upgrade_model_vs_spec', case, None, mo[0], 'model upgrade differs from Coq spec', spec=mo[1])
-        mexp = 'ValueError' if mo[0][0] == -1 else dict(flag_value=0x10 + mo[0][0], dumps=max(T, mo[0][1]), flag_dumps=mo[0][1], lost_ok=True)
-        if mexp != exp:
-            ctx.disagree('what=upgrade_spec_selfcheck', case, None, mexp, 'Coq spec differs from harness expectation', spec=exp)
-        if isinstance(exp, dict):
-            al = ctx.model([[18, [7, [[1] * T, [1] * exp['flag_dumps']]]]])[0]
-            if [sum(a) for a in al] != [exp['dumps']] * 2:
-                ctx.disagree('what=align_model', case, None, al, 'model alignment does not span the longer stream')
-    if got != exp:
-        ctx.disagree('what=flags_upgrade;n_candidates=%d' % len(cands), case, got, None,
-                     'flag stream upgrade / alignment differs from the documented rule', spec=exp)
-    ctx.traces_validated += 1
-    ctx.note_case(('flags', repr(case)), nontrivial=len(cands) >= 1, sample=dict(kind='flag_streams', **case))
-    ctx.count('flag_streams:%d' % len(cands))
+    ctx.count('flag_streams:%d' % len(case['candidates']))
+    # how often the namespace placement of the candidates' attributes decides the outcome
+    plain = dict(T=case['T'], F=case['F'],
+                 candidates=[{k: c[k] for k in ('name', 'T', 'F', 'B', 'type', 'src') if k in c} for c in case['candidates']])
+    m0 = dict(how='ctor', store='given', upgrade=True, n_ts=None)
+    if case.get('archived_decoy') is not None or any(set(c) - {'name', 'T', 'F', 'B', 'type', 'src'} for c in case['candidates']):
+        ctx.count('flag_layout:varied')
+        dec = dict(plain, candidates=[c for c in plain['candidates'] if c['name'] in (case.get('archived_decoy') or [])]) \
+            if case.get('archived_decoy') is not None else plain
+        if spec_of_mode(plain, m0) != spec_of_mode(case, m0) or spec_of_mode(dec, m0) != spec_of_mode(case, m0):
+            ctx.count('flag_layout:decides_outcome')
 
 
 def run(ctx):
@@ -319,8 +562,17 @@ def run(ctx):
         check_ids(ctx, make_rdb(tmp))
     finally:
         shutil.rmtree(tmp, ignore_errors=True)
-    for _ in range(ctx.scale(40, 400)):
-        check_flag_streams(ctx)
+    # flag streams x every way of opening: two fixtures opened in ALL ways, the others in a sample of ways
+    for k in range(ctx.scale(30, 300)):
+        check_flag_streams(ctx, n_modes=None if k < 2 else 6)
+    # a longer flag stream opened as metadata only / with data, deterministic (the shape of seeded change C18-2)
+    fixed = dict(T=3, F=4, candidates=[dict(name='fl0', T=5, F=4, type='sdp.flags', src=['sdp_l0'])])
+    for how, store in (('ctor', 'none'), ('from_url', 'none'), ('katdal.open', 'none'), ('from_url', 'auto')):
+        check_open(ctx, fixed, dict(how=how, store=store, upgrade=None, n_ts=None, query={}, dataset=True))
+    for bad in (dict(T=3, F=4, candidates=[dict(name='fl0', T=3, F=6, type='sdp.flags', src=['sdp_l0'])]),
+                dict(T=3, F=4, candidates=[dict(name='fl0', T=3, F=4, B=8, type='sdp.flags', src=['sdp_l0'])])):
+        for how, store in (('ctor', 'none'), ('katdal.open', 'none'), ('katdal.open', 'auto')):
+            check_open(ctx, bad, dict(how=how, store=store, upgrade=None, n_ts=None, query={}, dataset=True))
 
 
 def replay(ctx, doc):
@@ -331,5 +583,14 @@ def replay(ctx, doc):
         check_placement(ctx, chain, [prefixes.index(p) for p in case['attr_in']], [prefixes.index(p) for p in case['sensor_in']])
     elif 'chain' in case:
         check_prefixes(ctx, case['chain'])
+    elif 'mode' in case:
+        mode = case['mode']
+        check_open(ctx, {k: v for k, v in case.items() if k != 'mode'}, mode)
+    elif 'url_query' in case:
+        tmp = v4.scratch_dir('c18')
+        try:
+            check_ids(ctx, make_rdb(tmp), only=(case['url_query'], case['keywords']))
+        finally:
+            shutil.rmtree(tmp, ignore_errors=True)
     else:
         run(ctx)
